@@ -1198,6 +1198,10 @@ func doPlayground(req *Req) (resp Resp) {
 		h = server.NewZnPlaygroundHandler(exec.NewInterpreter("verif").SetExternalLibs(libs()))
 	}
 	body, _ := json.Marshal(map[string]string{"VarInput": req.Text, "SourceCode": string(srcRunes(req.Src))})
+	if len(req.Data) > 0 {
+		// the request body as raw bytes (C17: a body that is not valid UTF-8)
+		body = []byte(StringOf(req.Data))
+	}
 	hr := httptest.NewRequest("POST", "/", bytes.NewReader(body))
 	w := httptest.NewRecorder()
 	h.ServeHTTP(w, hr)
